@@ -8,7 +8,11 @@
     error before execution ([FReject]), or executed with the reply lost ([FLost]: the client sees a
     transport error).  [body] is what the script body itself replies when it runs; a body may reply
     with an error, including one whose text starts with "NOSCRIPT" ([ENoScript] is the client's
-    classification RedisError.IsNoScript, a prefix test).
+    classification RedisError.IsNoScript: a prefix test on ERROR replies, after an optional "ERR ").
+    The kind of a reply is explicit: an error ([RErr]) or a non-error ([ROk]); a non-error reply (status,
+    bulk string, integer, array) carries whether its text starts with "NOSCRIPT" / "ERR NOSCRIPT"
+    ([KNoScriptText]) — user data may well look like that — and Exec must not care: only an ERROR reply
+    with that prefix makes it fall back to EVAL.
 
     Transport-level retries are excluded (the property says "absent transport-level retries"; the
     observer runs the client with DisableRetry).  One node: ExecMulti's SCRIPT LOAD fan-out over
@@ -25,18 +29,21 @@ Inductive errk :=
 | ERedis        (* any other Redis error *)
 | ETransport.   (* not a Redis error: connection closed, context … *)
 
-Inductive reply := ROk (v : N) | RErr (e : errk).
+(** payload of a non-error reply: does its text start with "NOSCRIPT" (after an optional "ERR ")? *)
+Inductive okind := KPlain | KNoScriptText.
+
+Inductive reply := ROk (v : N) (k : okind) | RErr (e : errk).
 
 Inductive fault := FNone | FReject (e : errk) | FLost.
 
 (** what the script body replies when it runs: its tag (the scripts of the observer return ARGV[1]) or an error *)
-Inductive bodyk := BRet | BErr (e : errk).
+Inductive bodyk := BRet (k : okind) | BErr (e : errk).
 
-Definition body_reply (b : bodyk) (tag : N) : reply := match b with BRet => ROk tag | BErr e => RErr e end.
+Definition body_reply (b : bodyk) (tag : N) : reply := match b with BRet k => ROk tag k | BErr e => RErr e end.
 
 Record env_step := { flush_before : bool; flt : fault; body : bodyk }.
 
-Definition quiet : env_step := {| flush_before := false; flt := FNone; body := BRet |}.
+Definition quiet : env_step := {| flush_before := false; flt := FNone; body := BRet KPlain |}.
 
 Record opts := { readonly : bool; nosha : bool; loadsha : bool }.
 
@@ -55,7 +62,7 @@ Definition serve (s : srv) (e : env_step) (c : cmdk) (tag : N) : srv * reply :=
   | f =>
     let lost (r : reply) := match f with FLost => RErr ETransport | _ => r end in
     match c with
-    | CScriptLoad => ({| cached := true; runs := runs s0 |}, lost (ROk 0))
+    | CScriptLoad => ({| cached := true; runs := runs s0 |}, lost (ROk 0 KPlain))
     | CEval | CEvalRo => ({| cached := true; runs := runs s0 ++ [tag] |}, lost (body_reply (body e) tag))
     | CEvalsha | CEvalshaRo =>
       if cached s0 then ({| cached := true; runs := runs s0 ++ [tag] |}, lost (body_reply (body e) tag))
@@ -83,8 +90,9 @@ Definition send (x : xstate) (c : cmdk) (tag : N) : xstate * reply :=
   let '(s', r) := serve (server x) e c tag in
   ({| known := known x; server := s'; envq := rest; trace := trace x ++ [(c, tag, r)] |}, r).
 
+(** IsRedisErr(resp.Error()) && err.IsNoScript(): an ERROR reply with the NOSCRIPT prefix, nothing else *)
 Definition is_noscript (r : reply) : bool := match r with RErr ENoScript => true | _ => false end.
-Definition is_ok (r : reply) : bool := match r with ROk _ => true | _ => false end.
+Definition is_ok (r : reply) : bool := match r with ROk _ _ => true | _ => false end.
 
 (** Lua.Exec *)
 Definition exec (o : opts) (x : xstate) (tag : N) : xstate * reply :=
@@ -128,7 +136,7 @@ Definition exec_multi (o : opts) (x : xstate) (tags : list N) : xstate * list re
       let '(x', r) := send x CScriptLoad 0 in
       match r with
       | RErr _ => (x', Some r)
-      | ROk _ =>
+      | ROk _ _ =>
         if loadsha o then ({| known := true; server := server x'; envq := envq x'; trace := trace x' |}, None)
         else (x', None)
       end
@@ -177,9 +185,15 @@ Definition errk_eqb (a b : errk) : bool :=
   | _, _ => false
   end.
 
+Definition okind_eqb (a b : okind) : bool :=
+  match a, b with
+  | KPlain, KPlain | KNoScriptText, KNoScriptText => true
+  | _, _ => false
+  end.
+
 Definition reply_eqb (a b : reply) : bool :=
   match a, b with
-  | ROk v, ROk w => v =? w
+  | ROk v k, ROk w k' => (v =? w) && okind_eqb k k'
   | RErr e, RErr f => errk_eqb e f
   | _, _ => false
   end.
